@@ -386,57 +386,66 @@ class RefError(Exception):
         self.exc = exc
 
 
-def evaluate(ir, which=None, failing=()):
-    """Reference interpreter. Returns (value of output, {id: value}) evaluating only `which` ids (default: needed)."""
-    values = {}
+class Evaluator:
+    """Reference interpreter: direct recursive evaluation of the IR (never imports uberjob)."""
 
-    def ev(x):
+    def __init__(self, ir, failing=()):
+        self.ir = ir
+        self.values = {}
+        self.failing = failing
+
+    def ev(self, x):
         k = x.k
         if k == "ref":
-            return val(x.a)
+            return self.val(x.a)
         if k in ("const", "opaque"):
             return x.built if x.built is not None else x.a
         if not x.hasref:
             # node-free container: the very object supplied
             return x.built
         if k == "list":
-            return [ev(c) for c in x.a]
+            return [self.ev(c) for c in x.a]
         if k == "tuple":
-            return tuple(ev(c) for c in x.a)
+            return tuple(self.ev(c) for c in x.a)
         if k == "set":
-            return {ev(c) for c in x.a}
+            return {self.ev(c) for c in x.a}
         if k == "dict":
-            return dict((ev(kx), ev(vx)) for kx, vx in x.a)
+            return dict((self.ev(kx), self.ev(vx)) for kx, vx in x.a)
         raise AssertionError(k)
 
-    def val(i):
+    def val(self, i):
+        values = self.values
         if i in values:
             return values[i]
+        ir = self.ir
         n = ir.nodes[i]
         if n.kind == "call":
-            if i in failing:
+            if i in self.failing:
                 raise RefError(i, "injected")
-            v = compute(ir, n, [ev(a) for a in n.args], [(k, ev(a)) for k, a in n.kwargs])
+            v = compute(ir, n, [self.ev(a) for a in n.args], [(k, self.ev(a)) for k, a in n.kwargs])
         elif n.kind == "lit":
             v = n.value
         elif n.kind == "gather":
-            v = ev(n.expr)
+            v = self.ev(n.expr)
         elif n.kind == "unpack":
-            t = tuple(itertools.islice(ev(n.src), n.length + 1))
+            t = tuple(itertools.islice(self.ev(n.src), n.length + 1))
             if len(t) != n.length:
                 raise RefError(i, f"unpack length {len(t)} != {n.length}")
             v = t
         elif n.kind == "item":
-            v = val(n.src)[n.index]
+            v = self.val(n.src)[n.index]
         else:
             raise AssertionError(n.kind)
         values[i] = v
         return v
 
-    out = None
-    if ir.output is not None:
-        out = ev(ir.output)
-    return out, values
+    def output(self):
+        return None if self.ir.output is None else self.ev(self.ir.output)
+
+
+def evaluate(ir, failing=()):
+    e = Evaluator(ir, failing)
+    return e.output(), e.values
 
 
 # ----------------------------------------------------------------------------------------- generators
